@@ -89,6 +89,9 @@ class Driver(object):
         i = len(self.trace)
         if i >= self.max_depth:
             raise Budget()
+        if getattr(self, 't0', None) is not None and time.time() - self.t0 > self.max_seconds * 1.25 + 30:
+            # the time budget is otherwise only looked at between paths: a single path that runs away (thousands of decisions) has to end too
+            raise Budget()
         if i < len(self.prefix):
             v = self.prefix[i]
         elif self.mode == 'blind':
